@@ -29,7 +29,9 @@ Open(f)  == CASE f = "sq" -> "'" [] f = "dq" -> "\"" [] f = "tsq" -> "'''" [] f 
 Close(f) == CASE f \in {"sq", "RAW"} -> "'" [] f \in {"dq", "raw", "uni"} -> "\"" [] f = "tsq" -> "'''" [] f = "tdq" -> "\"\"\""
 
 Constructs == {"test_param", "fixture_param", "usefix", "usefix_class", "pytestmark", "indirect_true", "indirect_list",
-               "defname", "defname_async", "defname_tab", "defname_class"}
+               "defname", "defname_async", "defname_tab", "defname_class",
+               \* more than one blank between the keywords and the name (legal Python)
+               "defname_wide", "defname_async_wide"}
 
 \* a line = <<pieces before>>, the target's opening part (strings), the target token, closing part, rest
 Line(c, pk, sf, nm) ==
@@ -52,6 +54,8 @@ Line(c, pk, sf, nm) ==
                                      tok |-> tok, close |-> <<A(Close(sf))>>, after |-> <<A("])")>>]
           [] c = "defname"       -> [before |-> <<A("def ")>>, open |-> <<>>, tok |-> name, close |-> <<>>, after |-> <<A("():")>>]
           [] c = "defname_async" -> [before |-> <<A("async def ")>>, open |-> <<>>, tok |-> name, close |-> <<>>, after |-> <<A("():")>>]
+          [] c = "defname_wide"  -> [before |-> <<A("def   ")>>, open |-> <<>>, tok |-> name, close |-> <<>>, after |-> <<A("():")>>]
+          [] c = "defname_async_wide" -> [before |-> <<A("async  def  ")>>, open |-> <<>>, tok |-> name, close |-> <<>>, after |-> <<A("():")>>]
           [] c = "defname_tab"   -> [before |-> <<P("<TAB>", 1, 1), A("def ")>>, open |-> <<>>, tok |-> name, close |-> <<>>, after |-> <<A("(self):")>>]
           [] c = "defname_class" -> [before |-> <<A("    def ")>>, open |-> <<>>, tok |-> name, close |-> <<>>, after |-> <<A("(self):")>>]
 
@@ -79,12 +83,13 @@ Impl(c, l, D) ==
 
 AllPosDevs == {"byte_columns", "quote_strip_pm1", "indirect_whole_string"}
 
+DefConstructs == {"defname", "defname_async", "defname_tab", "defname_class", "defname_wide", "defname_async_wide"}
 VARIABLES c, pk, sf, nm
 vars == <<c, pk, sf, nm>>
 Init == /\ c \in Constructs /\ pk \in Prefixes /\ sf \in StrForms /\ nm \in {"ascii", "nonascii"}
         /\ (~IsString(c) => sf = "dq")
-        /\ (c \notin {"defname", "defname_async", "defname_tab", "defname_class"} => nm = "ascii")
-        /\ (c \in {"defname", "defname_async", "defname_tab", "defname_class"} => pk = "none")
+        /\ (c \notin DefConstructs => nm = "ascii")
+        /\ (c \in DefConstructs => pk = "none")
 Next == UNCHANGED vars
 Spec == Init /\ [][Next]_vars
 
